@@ -9,7 +9,8 @@ import Driver.ItvH
     [C03] a witness state of the collecting semantics is outside an exported fact
           (is_bottom, interval of a variable, exported linear constraint)
     [C04] inclusion / lattice laws: `x <= x`, `bot <= x`, `x <= top`, is_bottom(bottom),
-          is_top(top); `a <= b` answered yes although a witness of `a` violates a fact of `b`
+          is_top(top); `a <= b` answered yes although a witness of `a` violates a fact of `b`;
+          a join / meet (also in place) lost a witness of one operand / of both operands (tagged [C03][C04])
     [C16] an operation on one value changed what another value of the pool says
 -/
 namespace Driver
@@ -235,7 +236,7 @@ def handleDom (op : String) (args res : List Sexp) : Verdict :=
       if kind == "bot" && !isbot then throw (.unsound s!"[C04] {ctx}: set_to_bottom then is_bottom=false")
       -- C03: every witness of the collecting semantics satisfies every exported fact
       match wd.findSome? (fun σ => (violates facts σ).map (fun f => (σ, f))) with
-      | some (σ, f) => throw (.unsound s!"[C03] {ctx}: witness state {showState σ} of the collecting semantics violates {f}")
+      | some (σ, f) => throw (.unsound s!"[C03]{if kind == "join" || kind == "meet" || kind == "joineq" || kind == "meeteq" then "[C04]" else ""} {ctx}: witness state {showState σ} of the collecting semantics violates {f}")
       | none => pure ()
       pure { st with g := g, w := st.w.setIfInBounds d wd, facts := st.facts.setIfInBounds d facts,
                      nontrivialChecks := st.nontrivialChecks + wd.length }
